@@ -3,9 +3,11 @@ import Casket.Props.C01
 import Casket.Props.C04
 import Casket.Props.C05
 import Casket.Props.C06
+import Casket.Props.C09
 import Casket.Props.C12
 import Casket.Props.C13
 import Casket.Props.C14
 import Casket.Props.C17
 import Casket.Props.C18
 import Casket.Props.C19
+import Casket.Props.C20
